@@ -759,8 +759,26 @@ func (m *Manager) GetStats() (*NATStats, error) {
 	var key uint32 = 0
 	var stats NATStats
 
-	if err := m.natStats.Lookup(&key, &stats); err != nil {
+	// nat_stats_map is a per-CPU array: one value per possible CPU, read
+	// into a slice and aggregated
+	var perCPU []NATStats
+	if err := m.natStats.Lookup(&key, &perCPU); err != nil {
 		return nil, err
+	}
+	for _, s := range perCPU {
+		stats.PacketsSNAT += s.PacketsSNAT
+		stats.PacketsDNAT += s.PacketsDNAT
+		stats.PacketsHairpin += s.PacketsHairpin
+		stats.PacketsDropped += s.PacketsDropped
+		stats.PacketsPassed += s.PacketsPassed
+		stats.SessionsCreated += s.SessionsCreated
+		stats.SessionsExpired += s.SessionsExpired
+		stats.PortExhaustion += s.PortExhaustion
+		stats.EIMHits += s.EIMHits
+		stats.EIMMisses += s.EIMMisses
+		stats.ALGTriggers += s.ALGTriggers
+		stats.ConntrackLookups += s.ConntrackLookups
+		stats.ConntrackHits += s.ConntrackHits
 	}
 
 	return &stats, nil
